@@ -77,6 +77,7 @@ static void gen_model(struct sim_prng *r)
 		P.m_init_t0 = 1;
 	P.m_mem = PICK(r, 0, 1, 2, 2);
 	P.m_rng = PICK(r, 0, 0, 1, 2);
+	P.m_nosend = PICK(r, 0, 1);
 }
 
 static void gen_params(const char *profile, uint64_t base, long idx)
@@ -107,6 +108,24 @@ static void gen_params(const char *profile, uint64_t base, long idx)
 
 	if(!strcmp(profile, "tw")) {
 		/* general single-rank profile */
+	} else if(!strcmp(profile, "drv")) {
+		/* one worker driven by the harness: adversarial delivery order and GVT announcements */
+		P.engine = 5;
+		P.n_threads = 1;
+		P.n_lps = PICK(&rc, 1, 2, 2, 3, 4);
+		P.ckpt_interval = PICK(&rc, 1, 1, 2, 3, 5, 8, 0);
+		P.m_budget = PICK(&rm, 5, 10, 20, 40, 80);
+		P.m_fanout = PICK(&rm, 0, 0, 1, 2);
+		P.m_absorbing = PICK(&rm, 0, 1);
+		P.m_extra = 5;
+		P.m_nosend = PICK(&rm, 0, 1, 1);
+		P.m_mem = PICK(&rm, 0, 1, 2);
+		if(P.m_pred == 3)
+			P.m_absorbing = 0;
+		P.policy = 0;
+		P.stall_rate = 0;
+		P.clk_jump_rate = 0;
+		P.edge_every = 0;
 	} else if(!strcmp(profile, "long")) {
 		/* a GVT reduction costs ~14 main-loop iterations of every thread: only long runs see fossil collections followed by rollbacks */
 		P.m_budget = PICK(&rm, 100, 200, 400);
@@ -274,6 +293,7 @@ static void child_run(int wfd, const char *replay_out)
 	switch(P.engine) {
 		case 0:
 		case 4:
+		case 5:
 			tw_run();
 			break;
 		case 1:
